@@ -1482,12 +1482,21 @@ class BADS:
                 if yval_vec.size == 1:
                     yval_vec = np.vstack((yval_vec, self.yval))
                     if self.options["specify_target_noise"]:
+                        # SD logged at the returned point (not at the
+                        # last logged point)
+                        idx_u = np.argwhere(
+                            np.all(
+                                self.function_logger.X[
+                                    : self.function_logger.Xn + 1
+                                ]
+                                == self.u,
+                                axis=1,
+                            )
+                        )[-1].item()
                         ysd_vec = np.vstack(
                             (
                                 ysd_vec,
-                                self.function_logger.S[
-                                    self.function_logger.Xn
-                                ],
+                                self.function_logger.S[idx_u],
                             )
                         )
 
